@@ -145,6 +145,20 @@ def record_post(sc):
     except Exception:
         post = None
     queries = []
+    bufs = {}
+
+    def arg(q):
+        """every other scenario plays the caller's loop: ONE argument buffer per shape refilled in place between calls, and the
+        returned arrays overwritten after they were read"""
+        x = build_x(q, pts, dim)
+        if not sc.get("inplace") or not isinstance(x, np.ndarray) or x.ndim == 0:
+            return x
+        key = (x.shape, x.dtype.str)
+        if key not in bufs:
+            bufs[key] = x.copy()
+        else:
+            bufs[key][...] = x
+        return bufs[key]
     for q in sc["queries"]:
         ev = dict(fn=q["fn"], kind=q["kind"], pts=[pts[i] for i in q["idx"]], res="raise", shape=[], vals=[], rows=0, nless=0)
         if post is not None:
@@ -154,8 +168,10 @@ def record_post(sc):
             try:
                 with time_limit(20), warnings.catch_warnings(), np.errstate(all="ignore"):
                     warnings.simplefilter("ignore")
-                    out = fn(build_x(q, pts, dim))
+                    out = fn(arg(q))
                     ev.update(res="val", shape=[int(s) for s in np.shape(out)], vals=flat(out))
+                    if sc.get("inplace") and isinstance(out, np.ndarray) and out.ndim > 0 and out.flags.writeable:
+                        out[...] = -777.0
             except Hang:
                 ev["res"] = "hang"
             except Exception as ex:
@@ -239,7 +255,7 @@ def make_post(rnd, dim, force=None, zr=3):
         add("pdf", single, [i], form=rnd.choice(["array", "list"]))
     add("pdf", "2d", range(n))
     add("pdf", rnd.choice(multi), outside)
-    return dict(part="post", dim=dim, bounds=bounds, h=h, points=points, queries=queries)
+    return dict(part="post", dim=dim, bounds=bounds, h=h, points=points, queries=queries, inplace=rnd.random() < 0.5)
 
 
 def post_scenarios(ctx):
